@@ -16,7 +16,8 @@
 //!   fmt = format_pattern, wrt = write_pattern on the same bundle afterwards, calls = functions invoked
 //!   during fmt, alt = format_pattern on a bundle with isolation flipped.  The `x` part is for the
 //!   implementation-only oracles (C08): again = format_pattern repeated on the first bundle after every
-//!   other message of the bundle has been formatted; fresh = on a newly built bundle; perm = arguments
+//!   other message of the bundle has been formatted; fresh = on a newly built bundle; warm = on a bundle where every
+//!   other message was formatted first; perm = arguments
 //!   inserted in reverse order; collect = arguments through FromIterator; permall = every insertion order of an
 //!   argument set of at most 4 distinct keys gives the fmt result.
 use fluent_bundle::memoizer::MemoizerKind;
@@ -365,6 +366,28 @@ fn run_with<M: MemoizerKind>(
     let fresh = fresh_bundle.format_pattern(fresh_pattern, args.as_ref(), &mut e3).to_string();
     let fresh_s = res_pair("fresh", &fresh, &e3);
 
+    // a bundle on which every message (last to first) was formatted BEFORE the entry is formatted for the first time
+    let warm_bundle = build(mk(), cfg, cfg.iso, resources);
+    let warm_pattern = pick(&warm_bundle, resources, entry).expect("HARNESS: warm pattern");
+    for r in resources.iter().rev() {
+        let es: Vec<_> = r.entries().collect();
+        for e in es.iter().rev() {
+            if let ast::Entry::Message(m) = e {
+                if let Some(msg) = warm_bundle.get_message(m.id.name) {
+                    if let Some(v) = msg.value() {
+                        if !std::ptr::eq(v, warm_pattern) {
+                            let mut scratch = vec![];
+                            let _ = warm_bundle.format_pattern(v, args.as_ref(), &mut scratch);
+                        }
+                    }
+                }
+            }
+        }
+    }
+    let mut e6 = vec![];
+    let warm = warm_bundle.format_pattern(warm_pattern, args.as_ref(), &mut e6).to_string();
+    let warm_s = res_pair("warm", &warm, &e6);
+
     let rev_args = pairs.as_ref().map(|p| mk_args(p, "rev"));
     let mut e4 = vec![];
     let perm = bundle.format_pattern(pattern, rev_args.as_ref(), &mut e4).to_string();
@@ -427,6 +450,7 @@ fn run_with<M: MemoizerKind>(
             sym("x"),
             again_s,
             fresh_s,
+            warm_s,
             perm_s,
             col_s,
             list(vec![sym("wcalls"), int(wcalls as i64)]),
